@@ -33,7 +33,7 @@ CONTRACTS = {
             2: dict(idx="k2", modifies=["partitioning[tensor][ranks_tree][]"],
                     inv=[("each_directive_parsed_as_written_in_order",
                           "len(partitioning[tensor][ranks_tree]) == k2 and "
-                          "all(partitioning[tensor][ranks_tree][j] == PartitioningParser.parse_partitioning(parts[j]) for j in range(k2))"),
+                          "all(same_ref(partitioning[tensor][ranks_tree][j], PartitioningParser.parse_partitioning(parts[j])) for j in range(k2))"),
                          ("own_list", "fresh(partitioning[tensor][ranks_tree])")]),
         },
         abstract_loops={3: dict(modifies=["spacetime[]"], why="spacetime section (stamps): see the stamp lemma below")},
